@@ -16,6 +16,7 @@ package main
 // exactly as the same operations on a database where it is alone (real code, fresh stack; PIT reads included).
 
 import (
+	"math/big"
 	"github.com/formancehq/go-libs/v5/pkg/query"
 	"context"
 	"encoding/json"
@@ -475,6 +476,7 @@ func (m *mRun) observe(on string, what string) {
 			ctrl, err := m.procs[2].Sys.GetLedgerController(m.ctx, name)
 			must(err)
 			snap = m.procs[2].Snapshot(m.ctx, ctrl, name, l.Feat)
+			m.checkFilteredReads(l, ctrl, snap)
 			var err2 error
 			if l.Schemas, err2 = m.schemasVia(ctrl); err2 != nil {
 				m.violation("[schema-read-error]", fmt.Sprintf("ListSchemas on ledger %s fails: %v", name, err2))
@@ -972,5 +974,69 @@ func (m *mRun) bucketDeleteProbe() {
 	}
 	if n := len(v.Txs) + len(v.Accs) + len(v.Logs) + len(v.Vols); n > 0 {
 		m.violation("[c19-leak-after-bucket-delete]", fmt.Sprintf("[c19-leak-after-bucket-delete] a brand-new ledger created in bucket %s after the bucket was soft-deleted lists %d transactions, %d accounts, %d logs, %d volume rows of the deleted ledgers (e.g. %v)", bucket, len(v.Txs), len(v.Accs), len(v.Logs), len(v.Vols), append(append([]string{}, v.Txs...), v.Logs...)[:1]))
+	}
+}
+
+// checkFilteredReads (C19, no model): the filtered aggregated balances / volumes of a ledger - whose SQL joins the accounts
+// table in a sub-select (partial address: address_array; metadata: the accounts row) - equal what the ledger's OWN unfiltered
+// listings give for the accounts matching the filter. A sub-select that is not scoped to the ledger sees the namesake
+// accounts of the other ledgers of the bucket: rows counted twice, or selected through another ledger's metadata.
+func (m *mRun) checkFilteredReads(l *mLedger, ctrl ledgercontroller.Controller, s Snap) {
+	if s.Err != "" {
+		return
+	}
+	metaOf := map[string]map[string]string{}
+	for _, a := range s.Accounts {
+		mm := map[string]string{}
+		for _, kv := range a.Meta {
+			mm[kv.K] = kv.V
+		}
+		metaOf[a.Addr] = mm
+	}
+	type flt struct {
+		name string
+		b    query.Builder
+		sat  func(addr string) bool
+	}
+	flts := []flt{
+		{"address users:", query.Match("address", "users:"), func(a string) bool {
+			parts := strings.Split(a, ":")
+			return len(parts) == 2 && parts[0] == "users"
+		}},
+		{"metadata k1=v1 or role=v3 or k2=v2", query.Or(query.Match("metadata[k1]", "v1"), query.Match("metadata[role]", "v3"), query.Match("metadata[k2]", "v2")), func(a string) bool {
+			mm := metaOf[a]
+			return mm["k1"] == "v1" || mm["role"] == "v3" || mm["k2"] == "v2"
+		}},
+	}
+	for _, f := range flts {
+		want := map[string]*big.Int{}
+		for _, v := range s.Vols {
+			if f.sat(v[0]) {
+				if want[v[1]] == nil {
+					want[v[1]] = new(big.Int)
+				}
+				in, _ := new(big.Int).SetString(v[2], 10)
+				out, _ := new(big.Int).SetString(v[3], 10)
+				want[v[1]].Add(want[v[1]], new(big.Int).Sub(in, out))
+			}
+		}
+		got, err := ctrl.GetAggregatedBalances(m.ctx, common.ResourceQuery[ledger.GetAggregatedVolumesOptions]{Builder: f.b})
+		if err != nil {
+			m.violation("[filtered-read-error]", fmt.Sprintf("aggregated balances of ledger %s filtered by %s fail: %v", l.Name, f.name, err))
+			continue
+		}
+		m.stats["filtered_aggregates_checked"]++
+		ws, gs := []string{}, []string{}
+		for c, b := range want {
+			ws = append(ws, c+"="+b.String())
+		}
+		for c, b := range got {
+			gs = append(gs, c+"="+b.String())
+		}
+		sort.Strings(ws)
+		sort.Strings(gs)
+		if strings.Join(ws, ",") != strings.Join(gs, ",") {
+			m.violation("[filtered-aggregate]", fmt.Sprintf("[filtered-aggregate] aggregated balances of ledger %s filtered by %s are {%s}; its own volumes of the matching accounts give {%s}", l.Name, f.name, strings.Join(gs, ","), strings.Join(ws, ",")))
+		}
 	}
 }
